@@ -1,13 +1,38 @@
 """Worker interpreter: started fresh by the runner with its own PYTHONHASHSEED.
 
-Imports cr.cube from the working tree of the repository under test, never executes
-library logic itself, and forks a history child and an oracle child per run.
+Imports cr.cube from the working tree of the repository under test and then never does
+anything but fork: every task (scenario generation included) runs in a *task child*
+forked from this process, which in turn forks the history child, the oracle child and
+the purity children. The parent reads the task line as bytes and copies the answer
+through without parsing either, so its heap is the same at every fork: whatever state a
+run starts from (module state, allocator free lists, address reuse pattern) is the state
+right after start-up, in the worker that searches as well as in the brand-new interpreter
+that replays (DESIGN 7).
 Protocol: one JSON object per line on stdin (tasks) and stdout (results).
 """
 
 import json
 import os
+import select
+import signal
 import sys
+import time
+
+TASK_TIMEOUT_S = 900
+
+
+def run_task(line, surf, engine):
+    task = json.loads(line)
+    t = task.get("t")
+    if t == "run":
+        res = engine.execute_seed(task["seed"], task["cfg"], surf, want_trace=task.get("trace", False))
+    elif t == "replay":
+        res = engine.execute_replay(task["scenario"], task["ops"], surf)
+    else:
+        res = {"status": "harness_error", "error": "unknown task %r" % (t,)}
+    res["tag"] = task.get("tag")
+    res["hashseed"] = int(os.environ.get("PYTHONHASHSEED", "0") or 0)
+    return res
 
 
 def main():
@@ -20,7 +45,7 @@ def main():
     import cr
 
     cr.__path__ = [os.path.join(os.path.realpath(repo), "src", "cr")]
-    out = os.fdopen(os.dup(1), "w", buffering=1)
+    out_fd = os.dup(1)
     # anything the library or numpy prints must not corrupt the protocol stream
     os.dup2(2, 1)
 
@@ -33,6 +58,8 @@ def main():
 
     surf = surface.build_surface()
     expect = os.path.join(os.path.realpath(repo), "src", "cr", "cube")
+    keys = ("cube.Cube", "cube.CubeSet", "cubepart._Slice", "cubepart._Strand", "cubepart._Nub",
+            "dimension.Dimension", "dimension.Elements")
     hello = {
         "hello": {
             "pid": os.getpid(),
@@ -43,37 +70,75 @@ def main():
             "scipy": scipy.__version__,
             "python": sys.version.split()[0],
             "n_surface_classes": len(surf),
-            "n_props": {k: len(v["props"]) for k, v in surf.items() if k in (
-                "cube.Cube", "cube.CubeSet", "cubepart._Slice", "cubepart._Strand",
-                "cubepart._Nub", "dimension.Dimension")},
+            "n_props": {k: len(v["props"]) for k, v in surf.items() if k in keys[:6]},
             "uncalled_methods": {
                 k: sorted(m for m in v["methods"] if m not in surface.CALL_TEMPLATES.get(k, {}))
                 for k, v in surf.items()
-                if k in ("cube.Cube", "cube.CubeSet", "cubepart._Slice", "cubepart._Strand",
-                         "cubepart._Nub", "dimension.Dimension", "dimension.Elements")
-                and any(m not in surface.CALL_TEMPLATES.get(k, {}) for m in v["methods"])
+                if k in keys and any(m not in surface.CALL_TEMPLATES.get(k, {}) for m in v["methods"])
             },
         }
     }
-    out.write(json.dumps(hello) + "\n")
-    for line in sys.stdin:
-        line = line.strip()
+    os.write(out_fd, (json.dumps(hello) + "\n").encode())
+    del hello
+    stdin = sys.stdin.buffer
+    while True:
+        line = stdin.readline()
         if not line:
-            continue
-        task = json.loads(line)
-        t = task.get("t")
-        if t == "quit":
             break
-        if t == "run":
-            res = engine.execute_seed(task["seed"], task["cfg"], surf, want_trace=task.get("trace", False))
-        elif t == "replay":
-            res = engine.execute_replay(task["scenario"], task["ops"], surf)
-        else:
-            res = {"status": "harness_error", "error": "unknown task %r" % (t,)}
-        res["tag"] = task.get("tag")
-        res["hashseed"] = int(os.environ.get("PYTHONHASHSEED", "0") or 0)
-        out.write(json.dumps(res) + "\n")
-    out.close()
+        if line.strip() == b'{"t":"quit"}':
+            break
+        if not line.strip():
+            continue
+        r, w = os.pipe()
+        pid = os.fork()
+        if pid == 0:
+            code = 0
+            try:
+                os.close(r)
+                try:
+                    res = run_task(line, surf, engine)
+                except BaseException as e:  # noqa: B902
+                    res = {"status": "harness_error", "error": "task child failed: %r" % (e,)}
+                with os.fdopen(w, "wb") as f:
+                    f.write(json.dumps(res).encode() + b"\n")
+            except BaseException:  # noqa: B902
+                code = 3
+            finally:
+                os._exit(code)
+        os.close(w)
+        deadline = time.time() + TASK_TIMEOUT_S
+        chunks = []
+        timed_out = False
+        while True:
+            left = deadline - time.time()
+            if left <= 0:
+                timed_out = True
+                break
+            ready, _, _ = select.select([r], [], [], left)
+            if not ready:
+                continue
+            b = os.read(r, 1 << 16)
+            if not b:
+                break
+            chunks.append(b)
+        os.close(r)
+        if timed_out:
+            try:
+                os.kill(pid, signal.SIGKILL)
+            except OSError:
+                pass
+        os.waitpid(pid, 0)
+        data = b"".join(chunks)
+        if timed_out or not data.endswith(b"\n"):
+            data = (json.dumps({"status": "harness_error",
+                                "error": "task child %s" % ("timed out" if timed_out else "died without a result")})
+                    + "\n").encode()
+        view = memoryview(data)
+        while view:
+            n = os.write(out_fd, view)
+            view = view[n:]
+        del view, data, chunks, line
+    os.close(out_fd)
 
 
 if __name__ == "__main__":
